@@ -128,7 +128,7 @@ fn versions(v: u32) -> &'static [&'static rustls::SupportedProtocolVersion] {
     }
 }
 
-fn peer_client_config(v: u32, cert: &str, key: &str) -> Arc<rustls::ClientConfig> {
+pub fn peer_client_config(v: u32, cert: &str, key: &str) -> Arc<rustls::ClientConfig> {
     let cfg = rustls::ClientConfig::builder_with_provider(provider())
         .with_protocol_versions(versions(v))
         .expect("versions")
@@ -139,7 +139,7 @@ fn peer_client_config(v: u32, cert: &str, key: &str) -> Arc<rustls::ClientConfig
     Arc::new(cfg)
 }
 
-fn peer_server_config(v: u32, cert: &str, key: &str) -> Arc<rustls::ServerConfig> {
+pub fn peer_server_config(v: u32, cert: &str, key: &str) -> Arc<rustls::ServerConfig> {
     let cfg = rustls::ServerConfig::builder_with_provider(provider())
         .with_protocol_versions(versions(v))
         .expect("versions")
@@ -159,7 +159,7 @@ pub struct PeerResult {
     pub error: String,
 }
 
-fn version_num(v: Option<rustls::ProtocolVersion>) -> Option<u16> {
+pub fn version_num(v: Option<rustls::ProtocolVersion>) -> Option<u16> {
     v.map(|x| match x {
         rustls::ProtocolVersion::TLSv1_2 => 12,
         rustls::ProtocolVersion::TLSv1_3 => 13,
@@ -510,7 +510,7 @@ pub fn run_client_grid(cfg: &ScenCfg, out: &mut RunOut) {
         HostAddr::ip(addr.ip(), addr.port()),
         doubling_retry_strategy(Duration::from_secs(30), Duration::from_secs(30)),
         tls,
-        Some(Box::new(super::client::Listen { log: states.clone() })),
+        Some(Box::new(super::client::Listen { log: states.clone(), delay_ns: 0 })),
         ClientOptions::default().decode_level(decode),
     );
     let task = simtokio::task::spawn_named("tls-client", task.run());
@@ -1024,7 +1024,7 @@ pub fn run_handshake_stall(cfg: &ScenCfg, out: &mut RunOut) {
             HostAddr::ip(addr.ip(), addr.port()),
             doubling_retry_strategy(Duration::from_secs(1), Duration::from_secs(1)),
             tls,
-            Some(Box::new(super::client::Listen { log: states.clone() })),
+            Some(Box::new(super::client::Listen { log: states.clone(), delay_ns: 0 })),
             ClientOptions::default().decode_level(decode),
         );
         let task = simtokio::task::spawn_named("tls-client", task.run());
